@@ -257,6 +257,20 @@ def run(ctx):
             events.append({"op": "packed", "word": "smii", "fields": [["smii_always", int(always)], ["smii_channel", ch]],
                            "fileword": words[1] if len(words) > 1 else -1, "loaded": [["smii_always", int(m2.midi_in_always)], ["smii_channel", int(m2.midi_in_channel)]]})
             ctx.count_case(("smii", always, ch), nontrivial=always or ch)
+            # the same word on the project's Output module (module 00 carries it like every other module)
+            p = api.Project()
+            try:
+                p.output.midi_in_always, p.output.midi_in_channel = always, ch
+                got = [int(p.output.midi_in_always), int(p.output.midi_in_channel)]
+                data = p.read()
+                words = [struct.unpack("<I", pl)[0] for cid, pl in tlv.split(data) if cid == b"SMII"]
+                o2 = api.read_sunvox_file(io.BytesIO(data)).output
+                ld = [int(o2.midi_in_always), int(o2.midi_in_channel)]
+            except Exception:
+                got, words, ld = [-1, -1], [], [-1, -1]
+            events.append({"op": "packed", "word": "smii", "fields": [["smii_always", got[0] if got[0] == int(always) else -1], ["smii_channel", got[1] if got[1] == ch else -1]],
+                           "fileword": words[0] if words else -1, "loaded": [["smii_always", ld[0]], ["smii_channel", ld[1]]]})
+            ctx.count_case(("smii-output", always, ch), nontrivial=always or ch)
     for a in range(8):
         for b in range(8):
             p = api.Project()
